@@ -284,6 +284,9 @@ def kstep_sx(st):
     """one step of a Coq chain_path: (code, cps) | (4, code, cps...) for `..step` | (5, a, b, c-or-None) for a slice"""
     if st[0] == 4:
         return '4 ' + kstep_sx(tuple(st[1:]))
+    if st[0] == 11:
+        # `..` before a filter step: (11, the filter step)
+        return '11 (%s)' % kstep_sx(st[1])
     if st[0] in (7, 9):
         # an existence filter [?(@ inner)]: (7, [inner steps]); its negation [?(!@ inner)]: (9, [inner steps])
         return '%d ' % st[0] + ' '.join('(%s)' % kstep_sx(x) for x in st[1])
